@@ -864,8 +864,8 @@ def forall(vars_, body, patterns=None):
     bound variable); falls back to z3's own pattern inference."""
     pats = []
     for p in patterns or []:
-        if z3.is_app(p) and p.decl().kind() == z3.Z3_OP_UNINTERPRETED and all(occurs(v, p) for v in vars_):
-            pats.append(p)
+        if z3.is_app(p) and p.decl().kind() == z3.Z3_OP_UNINTERPRETED and all(occurs(v, p) for v in vars_) and not has_ite(p):
+            pats.append(p)       # (z3 rejects 'if' inside a trigger: it would print a warning and drop it)
         elif len(vars_) == 1:
             pats.extend(t for t in pattern_terms(p, vars_[0]))
     try:
